@@ -1064,8 +1064,39 @@ func runC03(r *Run, stratum string) *Violation {
 	o.NowMs = time.Now().UnixMilli()
 	ds := rdbgen.Gen(g, o)
 	ss := NewSnapSim(r, "C03", cfg, ds)
+	// in a third of the runs some snapshot keys already exist on the target (a full sync carried out a second time):
+	// under the default replace policy the target still has to end with exactly the snapshot's value (the three
+	// policies themselves are C20's subject)
+	var preDesc []string
+	if len(ds.Keys) > 0 && g.Choose("c03pre", 3) == 0 {
+		seen := map[string]bool{}
+		for i := 0; i < 1+g.Choose("c03npre", 6); i++ {
+			k := ds.Keys[g.Choose("prekey", len(ds.Keys))]
+			tdb := cfg.mapDB(k.DB)
+			id := fmt.Sprintf("%d/%s", tdb, k.Name)
+			if seen[id] || simredis.IsReservedKey(k.Name) {
+				continue
+			}
+			seen[id] = true
+			ov, how := oldValue(g, k, o.NowMs)
+			ss.srv.DBs[tdb][string(k.Name)] = ov
+			preDesc = append(preDesc, fmt.Sprintf("%s (%s)", id, how))
+		}
+		if len(preDesc) > 0 {
+			simrt.Probe("pre-existing-keys")
+			ss.note = func(id string) string {
+				if seen[id] {
+					return "; key pre-existed on the target"
+				}
+				return ""
+			}
+		}
+	}
 	r.Sample = fmt.Sprintf("cfg{%s} snapshot{%d bytes; %s}", cfg, len(ss.rdb), ds.Summary(10))
-	r.Logf("C03 %s cfg %s rdb=%d bytes crc=%x keys=%d", stratum, cfg, len(ss.rdb), ss.info.CRC, len(ds.Keys))
+	if len(preDesc) > 0 {
+		r.Sample += fmt.Sprintf(" pre-existing{%s}", strings.Join(preDesc, "; "))
+	}
+	r.Logf("C03 %s cfg %s rdb=%d bytes crc=%x keys=%d pre=%v", stratum, cfg, len(ss.rdb), ss.info.CRC, len(ds.Keys), preDesc)
 	chunked := false
 	if cfg.ChunkAt > 0 {
 		for _, ki := range ss.info.Keys {
